@@ -7,7 +7,7 @@ from props import _store_util as U
 THEOREMS = [
     "C03.sib_unique_step", "C03.sib_unique_run", "C03.pathNames_injective", "C03.split_join",
     "C03.path_name_injective", "C03.path_name_eq", "C03.depth_eq_length", "C03.sep_is_root_sep",
-    "C03.find_full_path_path_name", "C03.dup_refused_unchanged",
+    "C03.find_full_path_path_name", "C03.find_full_path_variants", "C03.dup_refused_unchanged",
 ]
 RULE = ("Node histories (user subclass with raising hooks) with names from {a,b,ab,ba,aa,'a b','a.b'} (equal names in "
         "different branches, prefix/suffix related names), separators / . \\ | (and '::', tie only) never occurring in a "
@@ -92,7 +92,7 @@ def impl(case):
     parts = []
     for op in d["ops"]:
         o = U.apply_op(nodes, op)
-        if not U.healthy(nodes):
+        if o == "hang" or not U.healthy(nodes):
             parts.append("corrupt")
             return " ; ".join(parts)
         parts.append(o + " " + U.show_snap(U.snap(nodes)) + " | " + U.show_paths(nodes))
@@ -106,6 +106,8 @@ def oracle(case):
     before = U.snap(nodes)
     for i, op in enumerate(d["ops"]):
         o = U.apply_op(nodes, op)
+        if o == "hang":
+            return [f"op {i} {U.fmt_op(op)} did not return within {U.HANG_SECONDS} s"]
         after = U.snap(nodes)
         if not U.healthy(nodes):
             return [f"after op {i} {U.fmt_op(op)}: the links no longer form a forest"]
@@ -133,7 +135,7 @@ def shrink(case):
         yield Case(U.mk_line(d), d, case.tags)
 
 
-NOT_READY = True
-LEVEL_TEXT = ""
-LEVEL_NOTE = ""
-TECHNIQUE = ""
+NOT_READY = False
+LEVEL_TEXT = "Proof. On the Node instance of the pointer-store model (pre-assign hooks run the user hook, then the duplicate-name check) and a List-Char model of path_name / depth / sep / find_full_path (str.split, lstrip, rstrip, join re-implemented): C03.sib_unique_step / sib_unique_run - in every state reachable through the structural API no two children of one parent share a name; dup_refused_unchanged - a duplicate attachment is refused and the store is unchanged; pathNames_injective - route names identify a node inside its tree; split_join - split(sep) inverts join(sep) for a one-character separator occurring in no piece; path_name_eq, path_name_injective - the path name is sep + sep.join(route names) and path names are pairwise distinct in a tree; depth_eq_length; sep_is_root_sep - every node reports the separator stored on its root, a node and its parent agree, after v.sep = x exactly v's tree reports x, a detached node reports its own field; find_full_path_path_name (+ find_full_path_variants: leading separator omitted / trailing separator added) - looking a node's path name up from any node of its tree returns that very node. Tied to /repo by differential testing of Node histories (names a,b,ab,ba,aa,'a b','a.b'; separators / . \\ | and ::) comparing path_name/depth/sep of every node after every call and all pairwise look-ups on the final store."
+LEVEL_NOTE = "String theorems assume a single-character separator that occurs in no name and non-empty names (what Node enforces); multi-character separators ('::') are covered by the tie only. The constructors (list/dict/dataframe/nested) are covered through C05/C13's models, not here. Renaming via node.name= is excluded by the statement."
+TECHNIQUE = 'Lean 4 invariant proof (SibUnique) + injectivity/round-trip theorems on List Char + correspondence check + model-free path oracle'
